@@ -118,7 +118,9 @@ theorem alStep_inv (cs : List (C α)) (p : Params α) (hgamma : 1 < p.gamma) (hm
     (s : ALState α) (a : Answer α) (ha : Consistent cs a) (hinv : ALInv cs s) :
     ((alStep cs p s a).2 = false → ALInv cs (alStep cs p s a).1) ∧
     ((alStep cs p s a).1.status = 1 → violation (alStep cs p s a).1.best ≤ p.eps) ∧
-    (alStep cs p s a).1.best = mkState cs (alStep cs p s a).1.best.x := by
+    (alStep cs p s a).1.best = mkState cs (alStep cs p s a).1.best.x ∧
+    violation (alStep cs p s a).1.best ≤ (alStep cs p s a).1.oldCrit ∧
+    (∀ m ∈ (alStep cs p s a).1.miu, 0 ≤ m) := by
   have hclen : a.cstate.cineq.length = countIneq cs := by
     rw [ha]; exact evalIneq_length cs _
   have hcrit : violation a.cstate ≤ criterion a.cstate s.miu s.ro :=
@@ -138,6 +140,14 @@ theorem alStep_inv (cs : List (C α)) (p : Params α) (hgamma : 1 < p.gamma) (hm
     · have : alImproved s a = false := by simp [alImproved, hok, hlt]
       rw [this]
       exact le_trans hinv.viol_le (not_lt.mp hlt)
+  have hbest2 : violation (if alImproved s a then mkState cs a.cstate.x else s.best) ≤ s.oldCrit := by
+    by_cases himp : alImproved s a = true
+    · have h := himp
+      simp only [alImproved, Bool.and_eq_true, decide_eq_true_eq] at h
+      rw [himp, if_pos rfl, ← ha]
+      exact le_trans hcrit (le_of_lt h.2)
+    · have : alImproved s a = false := by simpa using himp
+      rw [this]; exact hinv.viol_le
   by_cases hstop : (alConverged p s a || !(a.iterOk && a.bvalid)) = true
   · -- the loop stops
     have e1 : (alStep cs p s a).2 = true := by simp only [alStep, hstop, if_true]
@@ -145,7 +155,12 @@ theorem alStep_inv (cs : List (C α)) (p : Params α) (hgamma : 1 < p.gamma) (hm
       simp only [alStep, hstop, if_true]
     have e3 : (alStep cs p s a).1.status = (if alConverged p s a then 1 else 2) := by
       simp only [alStep, hstop, if_true]
-    refine ⟨fun h => by rw [e1] at h; cases h, fun h => ?_, by rw [e2]; exact hbesteq⟩
+    have e4 : (alStep cs p s a).1.oldCrit = s.oldCrit := by
+      simp only [alStep, hstop, if_true]
+    have e5 : (alStep cs p s a).1.miu = s.miu := by
+      simp only [alStep, hstop, if_true]
+    refine ⟨fun h => by rw [e1] at h; cases h, fun h => ?_, (by rw [e2]; exact hbesteq),
+      (by rw [e2, e4]; exact hbest2), (by rw [e5]; exact hinv.miu_nonneg)⟩
     rw [e3] at h
     by_cases hconv : alConverged p s a = true
     · have hc := hconv
@@ -171,15 +186,17 @@ theorem alStep_inv (cs : List (C α)) (p : Params α) (hgamma : 1 < p.gamma) (hm
       simp only [alStep, hstop', Bool.false_eq_true, if_false]
     have e5 : (alStep cs p s a).1.oldCrit = criterion a.cstate s.miu s.ro := by
       simp only [alStep, hstop', Bool.false_eq_true, if_false]
-    refine ⟨fun _ => ⟨?_, ?_, ?_, ?_, ?_, ?_⟩, fun h => ?_, by rw [e1]; exact hbesteq⟩
-    · rw [e3]; split
-      · exact mul_pos (lt_trans one_pos hgamma) hinv.ro_pos
-      · exact hinv.ro_pos
-    · intro m hm
+    have hmiu : ∀ m ∈ (alStep cs p s a).1.miu, 0 ≤ m := by
+      intro m hm
       rw [e4] at hm
       obtain ⟨i, hi, rfl⟩ := List.mem_iff_getElem.mp hm
       simp only [List.getElem_zipWith, cmin_eq_min, cmax_eq_max]
       exact le_min (le_max_right _ _) hmiuMax
+    refine ⟨fun _ => ⟨?_, hmiu, ?_, ?_, ?_, ?_⟩, fun h => ?_, (by rw [e1]; exact hbesteq),
+      (by rw [e1, e5]; exact hbest hok), hmiu⟩
+    · rw [e3]; split
+      · exact mul_pos (lt_trans one_pos hgamma) hinv.ro_pos
+      · exact hinv.ro_pos
     · rw [e4]; simp [hinv.miu_len, hclen]
     · rw [e1]; exact hbesteq
     · rw [e1, e5]; exact hbest hok
@@ -191,13 +208,13 @@ theorem alLoop_inv (cs : List (C α)) (p : Params α) (hgamma : 1 < p.gamma) (hm
     ∀ (fuel : Nat) (s : ALState α), ALInv cs s →
       ((alLoop cs p inner fuel s).status = 1 → violation (alLoop cs p inner fuel s).best ≤ p.eps) ∧
       (alLoop cs p inner fuel s).best = mkState cs (alLoop cs p inner fuel s).best.x ∧
-      ((alLoop cs p inner fuel s).status ≠ 1 → violation (alLoop cs p inner fuel s).best ≤ (alLoop cs p inner fuel s).oldCrit
-        ∨ (alLoop cs p inner fuel s).status = 2) := by
+      violation (alLoop cs p inner fuel s).best ≤ (alLoop cs p inner fuel s).oldCrit ∧
+      (∀ m ∈ (alLoop cs p inner fuel s).miu, 0 ≤ m) := by
   intro fuel
   induction fuel with
   | zero =>
     intro s hinv
-    exact ⟨fun h => absurd h hinv.not_conv, hinv.best_eq, fun _ => Or.inl hinv.viol_le⟩
+    exact ⟨fun h => absurd h hinv.not_conv, hinv.best_eq, hinv.viol_le, hinv.miu_nonneg⟩
   | succ fuel ih =>
     intro s hinv
     have hstep := alStep_inv cs p hgamma hmiuMax s (inner s.iters s) (hinner _ _) hinv
@@ -205,19 +222,7 @@ theorem alLoop_inv (cs : List (C α)) (p : Params α) (hgamma : 1 < p.gamma) (hm
     cases hstop : (alStep cs p s (inner s.iters s)).2 with
     | true =>
       simp only [if_true]
-      refine ⟨hstep.2.1, hstep.2.2, fun hne => Or.inr ?_⟩
-      -- a stopped step has status 1 or 2
-      have : (alStep cs p s (inner s.iters s)).1.status = 1 ∨ (alStep cs p s (inner s.iters s)).1.status = 2 := by
-        have hs := hstop
-        unfold alStep at hs ⊢
-        split at hs
-        · split
-          · rename_i hc; simp [hc]
-          · simp_all
-        · simp at hs
-      rcases this with h | h
-      · exact absurd h hne
-      · exact h
+      exact hstep.2
     | false =>
       simp only [Bool.false_eq_true, if_false]
       exact ih _ (hstep.1 hstop)
